@@ -288,6 +288,14 @@ def cases(seed, tier, shard, nshards):
             if k % 2:
                 a, b = ('package-in-own-directory', PKGDIR_MARK + body), ('probe', body)
             yield {'A': [list(a)], 'B': list(b), 'render': k >= 2, 'renderer': 'HTML5', 'pair': 'package-availability'}
+    # a document with a language-terms file of its own, before and after documents that use the built-in terms
+    if shard == 1 % nshards:
+        body = '\\documentclass{book}\\begin{document}\\tableofcontents\\chapter{Wq1x}Wq2x \\chaptername* \\figurename* \\contentsname*\\begin{figure}Wq3x\\caption{Wq4x}\\end{figure}\\end{document}'
+        for k in range(4):
+            a, b = ('terms-file', TERMS_MARK + body), ('probe', body)
+            if k % 2:
+                a, b = ('built-in-terms', body), ('probe', TERMS_MARK + body)
+            yield {'A': [list(a)], 'B': list(b), 'render': k >= 2, 'renderer': 'HTML5', 'pair': 'language-terms'}
     # every command without arguments, used once inside a group by an otherwise empty document (a built-in switch or setting that a
     # command keeps on its class shows in the holders); the quick tier takes every third name, rotating with the seed
     cmds = argumentless_commands()
@@ -379,17 +387,37 @@ def package_dir():
     return _pkgdir[0]
 
 
+# A document that begins with this comment line is processed with a language-terms file of its own (document/lang-terms) that
+# renames terms of a built-in language and adds one; other documents use the built-in terms
+TERMS_MARK = '%pvmon:own-language-terms\n'
+
+
+def terms_file():
+    p = os.path.join(package_dir(), 'zqterms.xml')
+    if not os.path.exists(p):
+        with open(p, 'w', encoding='utf-8') as f:
+            f.write('<languages>\n<terms lang="en">\n<term name="chapter">Kapitel</term>\n<term name="figure">Abbildung</term>\n'
+                    '<term name="contents">Inhalt</term>\n<term name="zqterm">Zqtermz</term>\n</terms>\n'
+                    '<terms lang="de">\n<term name="table">Tafel</term>\n</terms>\n</languages>\n')
+    return p
+
+
 def process(src, render, renderer='HTML5'):
     """-> canonical observable result of one document (tree, and files when rendered)"""
     from plasTeX.TeX import TeX
     table = {}
     pkgdir = package_dir() if src.startswith(PKGDIR_MARK) else None
     overrides = {('general', 'packages-dirs'): [pkgdir]} if pkgdir else None
+    terms = terms_file() if src.startswith(TERMS_MARK) else None
+    if terms:
+        overrides = {('document', 'lang-terms'): [terms]}
     if not render:
         tex = TeX()
         install_custom(tex, tex.ownerDocument)
         if pkgdir:
             tex.ownerDocument.config['general']['packages-dirs'] = [pkgdir]
+        if terms:
+            tex.ownerDocument.config['document']['lang-terms'] = [terms]
         tex.input(src)
         try:
             doc = tex.parse()
